@@ -15,7 +15,10 @@
    - Err exactly for families without metrics / without a name / of type UNTYPED; what was
      written before the failing family reads back as the families before it.
    The read-back clauses are claimed for families with valid metric and label names whose
-   histogram (summary) metrics carry no label called le (quantile) of their own. *)
+   histogram (summary) metrics carry no label called le (quantile) of their own.  On Err the
+   encoder may already have written the HELP / TYPE header of the failing family (UNTYPED is
+   detected at its first metric): the read-back of the prefix is then claimed when that header
+   is readable too (valid name, help made of scalar values). *)
 Require Import PV.Base.Prelude PV.Base.F64 PV.Base.Utf8 PV.Model.Proto PV.Model.Desc PV.Model.Value PV.Model.Text PV.Model.TextParse.
 Open Scope N_scope.
 
@@ -72,6 +75,18 @@ Fixpoint good_prefix (fams : list MetricFamily) : list MetricFamily :=
   | f :: r => if bad_family f then [] else f :: good_prefix r
   end.
 
+(* the failing family, and whether a header written for it can be read *)
+Fixpoint first_bad (fams : list MetricFamily) : option MetricFamily :=
+  match fams with
+  | [] => None
+  | f :: r => if bad_family f then Some f else first_bad r
+  end.
+Definition bad_header_ok (fams : list MetricFamily) : bool :=
+  match first_bad fams with
+  | Some f => is_nil (mf_metric f) || is_nil (mf_name f) || (is_valid_metric_name (mf_name f) && forallb scalarb (mf_help f))
+  | None => true
+  end.
+
 (* ---------------------------------------------------------------- one run into an empty buffer *)
 Definition spec_single (fams : list MetricFamily) (r : eres) : bool :=
   match r with
@@ -85,7 +100,7 @@ Definition spec_single (fams : list MetricFamily) (r : eres) : bool :=
   | EErr _ out =>
       existsb bad_family fams
       && (let g := good_prefix fams in
-          if forallb family_ok g
+          if forallb family_ok g && bad_header_ok fams
           then match parse out with
                | Some v => vfams_eqb (firstn (length g) v) (view g)
                | None => false
